@@ -132,6 +132,12 @@ func genMemCfg(r *rand.Rand) memCfg {
 	return c
 }
 
+// hugeTTL: "forever" lifetimes of a century or two, in seconds (beyond 32 bits, still inside
+// what a time.Duration can express).
+func hugeTTL(r *rand.Rand) int64 {
+	return []int64{1 << 32, 1<<32 + 5, 3153600000, 1 << 33, 1<<32 - 1}[r.Intn(5)]
+}
+
 // genMemOp draws one step; nextVal hands out unique values.
 func genMemOp(r *rand.Rand, nkeys int, nextVal *int) op {
 	// a program leans on a hot key so that multi-step stories about ONE key are common
@@ -147,6 +153,9 @@ func genMemOp(r *rand.Rand, nkeys int, nextVal *int) op {
 		case y < 4:
 		case y < 8:
 			o.hasTTL, o.ttl = true, 1+int64(r.Intn(3))
+			if r.Intn(10) == 0 {
+				o.ttl = hugeTTL(r)
+			}
 		default:
 			o.hasTTL, o.ttl = true, -int64(r.Intn(2))
 		}
@@ -163,6 +172,9 @@ func genMemOp(r *rand.Rand, nkeys int, nextVal *int) op {
 			o.upd, o.updTTL = true, 0
 		case y < 19:
 			o.upd, o.updTTL = true, 1+int64(r.Intn(3))
+			if r.Intn(10) == 0 {
+				o.updTTL = hugeTTL(r)
+			}
 		default:
 			o.rag, o.upd, o.updTTL = true, true, int64(r.Intn(3))
 		}
